@@ -131,7 +131,7 @@ Qed.
 Theorem print_idempotent_proof : forall e, print_js (ng e) = print_js e.
 Proof. exact pitems_ng_bytes. Qed.
 
-(* ---- the printed tokens are a strict spelling of the re-parsed tree -------------------------------------------------- *)
+(* ---- the printed tokens are a spelling of the re-parsed tree -------------------------------------------------- *)
 
 Lemma lvl_ng : forall e, lvl (ng e) = lvl e.
 Proof.
@@ -212,7 +212,7 @@ Proof.
   destruct k as [t l d]. exact H0.
 Qed.
 
-Lemma spells_lit_inv q inf ts t d : spells q inf ts (ELit t d) -> pview (mkTok t false d) = PLeaf (ELit t d).
+Lemma spells_lit_inv inf ts t d : spells inf ts (ELit t d) -> pview (mkTok t false d) = PLeaf (ELit t d).
 Proof.
   intros H. remember (ELit t d) as e eqn:E. destruct H; try discriminate.
   - subst e. destruct (pview_leaf_tok _ _ H) as [t' [b [E1 [E2 _]]]]. cbn [pitems] in E1. inversion E1; subst. exact E2.
@@ -235,33 +235,29 @@ Ltac vfacts inf k Hv :=
   let SF := fresh "SF" in
   pose proof (sfact_all inf (ty k)) as SF; rewrite Hv in SF; cbn [sfact] in SF; b2p.
 
-Lemma respell_all q :
-  (forall inf ts t (s : spells q inf ts t), spells false inf (ptoks (pitems t)) (ng t)) /\
-  (forall ats args (s : spells_args q ats args),
-     spells_args false (ptoks (sep_items [ptok tt_CommaToken; PSp] (map pitems args)) ++ [rp_tok]) (map ng args)).
+Lemma respell_all :
+  (forall inf ts t (s : spells inf ts t), spells inf (ptoks (pitems t)) (ng t)) /\
+  (forall ats args (s : spells_args ats args),
+     spells_args (ptoks (sep_items [ptok tt_CommaToken; PSp] (map pitems args)) ++ [rp_tok]) (map ng args)).
 Proof.
   pose proof prec_order as PO.
-  apply (spells_both_ind q
-           (fun inf _ t _ => spells false inf (ptoks (pitems t)) (ng t))
-           (fun _ args _ => spells_args false (ptoks (sep_items [ptok tt_CommaToken; PSp] (map pitems args)) ++ [rp_tok]) (map ng args))).
+  apply (spells_both_ind
+           (fun inf _ t _ => spells inf (ptoks (pitems t)) (ng t))
+           (fun _ args _ => spells_args (ptoks (sep_items [ptok tt_CommaToken; PSp] (map pitems args)) ++ [rp_tok]) (map ng args))).
   - (* leaf *)
     intros inf k e Hv. destruct (pview_leaf_tok _ _ Hv) as [t [b [E1 [E2 E3]]]]. rewrite E1, E3. cbn [ptoks].
     apply SP_leaf. exact E2.
   - (* group *)
     intros inf ko pG pS ts t kc Hv Ht IH Hl Hkc. cbn [pitems ng ptoks ptok]. rewrite ptoks_app. cbn [ptoks].
     pose proof (pfact_all ko) as PF. rewrite Hv in PF. cbn [pfact] in PF. b2p.
-    eapply (SP_group false inf _ prec_OpAssign prec_OpExpr); [apply pview_lp_tok|exact IH|rewrite lvl_ng; lia|reflexivity].
-  - (* group with a trailing comma: printed without it *)
-    intros inf ko pG pS ts t km kc Hq Hv Ht IH Hl Hkm Hkc. cbn [pitems ng ptoks ptok]. rewrite ptoks_app. cbn [ptoks].
-    pose proof (pfact_all ko) as PF. rewrite Hv in PF. cbn [pfact] in PF. b2p.
-    eapply (SP_group false inf _ prec_OpAssign prec_OpExpr); [apply pview_lp_tok|exact IH|rewrite lvl_ng; lia|reflexivity].
+    eapply (SP_group inf _ prec_OpAssign prec_OpExpr); [apply pview_lp_tok|exact IH|rewrite lvl_ng; lia|reflexivity].
   - (* prefix operator *)
     intros inf k pG pO pS pN ts x Hv Hx IH Hl. cbn [pitems ng].
     pose proof (pfact_all k) as PF. rewrite Hv in PF. cbn [pfact] in PF. b2p.
     assert (Hnp : is_postfix pO = false).
     { unfold is_postfix. unfold is_postfix_op in *. destruct ((pO =? tt_PostIncrToken) || (pO =? tt_PostDecrToken)); [discriminate|reflexivity]. }
     rewrite Hnp.
-    assert (G : spells false inf (mkTok (unary_tok pO) false (tok_bytes pO) :: ptoks (pitems x)) (EUnary pO (ng x))).
+    assert (G : spells inf (mkTok (unary_tok pO) false (tok_bytes pO) :: ptoks (pitems x)) (EUnary pO (ng x))).
     { eapply SP_prefix; [eapply pview_unary_tok; exact Hv|exact IH|rewrite lvl_ng; exact Hl]. }
     destruct (unary_needs_space pO x); cbn [ptoks]; exact G.
   - (* postfix operator *)
@@ -270,11 +266,11 @@ Proof.
     assert (Hp : is_postfix pO = true) by (unfold is_postfix; unfold is_postfix_op in *; assumption).
     rewrite Hp. rewrite ptoks_app. cbn [ptoks].
     pose proof (arm_token inf (ty k)) as AT. rewrite Hv in AT.
-    eapply (SP_postfix false inf (mkTok (unary_tok pO) false (tok_bytes pO)) pL pR pO pN); cbn [ty lt];
+    eapply (SP_postfix inf (mkTok (unary_tok pO) false (tok_bytes pO)) pL pR pO pN); cbn [ty lt];
       [rewrite AT; exact Hv|reflexivity|exact IH|rewrite lvl_ng; exact Hl].
   - (* binary operator *)
     intros inf k pL pR pX pS pN xs x ys y Hv Hx IHx Hok Hy IHy Hl. cbn [pitems ng ptok]. rewrite ptoks_app. cbn [ptoks].
-    eapply (SP_binary false inf (mkTok (ty k) false (tok_bytes (ty k))) pL pR pX pS pN); cbn [ty];
+    eapply (SP_binary inf (mkTok (ty k) false (tok_bytes (ty k))) pL pR pX pS pN); cbn [ty];
       [exact Hv|exact IHx|rewrite lvl_ng; exact Hok|exact IHy|rewrite lvl_ng; exact Hl].
   - (* dot *)
     intros inf kd pR pC xs x n Hv Hx IH Hl Hn Hp. cbn [pitems ng].
@@ -287,28 +283,28 @@ Proof.
                mkTok tt_DotToken false (tok_bytes tt_DotToken); mkTok tt_IdentifierToken false (data n)])
         with ((mkTok tt_OpenParenToken false (tok_bytes tt_OpenParenToken) :: [mkTok t false d] ++ [mkTok tt_CloseParenToken false (tok_bytes tt_CloseParenToken)])
               ++ [mkTok tt_DotToken false (tok_bytes tt_DotToken); mkTok tt_IdentifierToken false (data n)]).
-      eapply (SP_dot false inf _ pR pC _ (EGroup (ELit t d)) (mkTok tt_IdentifierToken false (data n))); cbn [ty data];
+      eapply (SP_dot inf _ pR pC _ (EGroup (ELit t d)) (mkTok tt_IdentifierToken false (data n))); cbn [ty data];
         [exact Hd| |cbn [lvl] in *; exact Hl|reflexivity|vm_compute; discriminate].
-      eapply (SP_group false inf _ prec_OpAssign prec_OpExpr); [apply pview_lp_tok| |cbn [lvl]; lia|reflexivity].
+      eapply (SP_group inf _ prec_OpAssign prec_OpExpr); [apply pview_lp_tok| |cbn [lvl]; lia|reflexivity].
       apply SP_leaf. eapply spells_lit_inv. exact Hx.
     + rewrite ptoks_app. cbn [ptoks ptok].
-      eapply (SP_dot false inf _ pR pC _ (ng x) (mkTok tt_IdentifierToken false (data n))); cbn [ty data];
+      eapply (SP_dot inf _ pR pC _ (ng x) (mkTok tt_IdentifierToken false (data n))); cbn [ty data];
         [exact Hd|exact IH|rewrite lvl_ng; exact Hl|reflexivity|vm_compute; discriminate].
   - (* index *)
     intros inf ko pR pC pS xs x ys y kc Hv Hx IHx Hl Hy IHy Hly Hkc. cbn [pitems ng ptok]. rewrite ptoks_app. cbn [ptoks]. rewrite ptoks_app. cbn [ptoks].
     pose proof (arm_token inf (ty ko)) as AT. rewrite Hv in AT.
-    eapply (SP_index false inf (mkTok tt_OpenBracketToken false (tok_bytes tt_OpenBracketToken)) pR pC pS); cbn [ty];
+    eapply (SP_index inf (mkTok tt_OpenBracketToken false (tok_bytes tt_OpenBracketToken)) pR pC pS); cbn [ty];
       [rewrite <- AT; exact Hv|exact IHx|rewrite lvl_ng; exact Hl|exact IHy|rewrite lvl_ng; exact Hly|reflexivity].
   - (* call *)
     intros inf ko pL pR pC xs x ats args Hv Hx IHx Hl Ha IHa. cbn [pitems ng ptok]. rewrite ptoks_app. cbn [ptoks]. rewrite ptoks_app. cbn [ptoks].
     pose proof (arm_token inf (ty ko)) as AT. rewrite Hv in AT.
-    eapply (SP_call false inf (mkTok tt_OpenParenToken false (tok_bytes tt_OpenParenToken)) pL pR pC); cbn [ty];
+    eapply (SP_call inf (mkTok tt_OpenParenToken false (tok_bytes tt_OpenParenToken)) pL pR pC); cbn [ty];
       [rewrite <- AT; exact Hv|exact IHx|rewrite lvl_ng; exact Hl|exact IHa].
   - (* conditional *)
     intros inf kq pL pR pS pE pN cs c xs x kc ys y Hv Hc IHc Hlc Hx IHx Hlx Hkc Hy IHy Hly. cbn [pitems ng ptok].
     rewrite ptoks_app. cbn [ptoks]. rewrite ptoks_app. cbn [ptoks].
     pose proof (arm_token inf (ty kq)) as AT. rewrite Hv in AT.
-    eapply (SP_cond false inf (mkTok tt_QuestionToken false (tok_bytes tt_QuestionToken)) pL pR pS pE pN _ _ _ _
+    eapply (SP_cond inf (mkTok tt_QuestionToken false (tok_bytes tt_QuestionToken)) pL pR pS pE pN _ _ _ _
               (mkTok tt_ColonToken false (tok_bytes tt_ColonToken))); cbn [ty];
       [rewrite <- AT; exact Hv|exact IHc|rewrite lvl_ng; exact Hlc|exact IHx|rewrite lvl_ng; exact Hlx|reflexivity|exact IHy|rewrite lvl_ng; exact Hly].
   - (* comma *)
@@ -318,10 +314,10 @@ Proof.
     assert (E : ptoks (pitems (comma_snoc x y)) = ptoks (pitems x) ++ mkTok tt_CommaToken false (tok_bytes tt_CommaToken) :: ptoks (pitems y)).
     { destruct x; cbn [comma_snoc pitems map sep_items]; try (rewrite ptoks_app; reflexivity).
       destruct l as [|a l].
-      - exfalso. pose proof (spells_comma_len _ _ _ _ Hx [] eq_refl). cbn in H. lia.
+      - exfalso. pose proof (spells_comma_len _ _ _ Hx [] eq_refl). cbn in H. lia.
       - rewrite map_app. cbn [map]. rewrite ptoks_sep_snoc by discriminate. rewrite ptoks_app. reflexivity. }
     rewrite E.
-    eapply (SP_comma false inf (mkTok tt_CommaToken false (tok_bytes tt_CommaToken)) pL pS pN); cbn [ty];
+    eapply (SP_comma inf (mkTok tt_CommaToken false (tok_bytes tt_CommaToken)) pL pS pN); cbn [ty];
       [rewrite <- AT; exact Hv|exact IHx|exact IHy|rewrite lvl_ng; exact Hl].
   - (* arguments: () *)
     intros kc Hkc. cbn [map sep_items ptoks app]. apply SA_end. reflexivity.
@@ -334,7 +330,7 @@ Proof.
       cbn [map sep_items]. apply SA_last; [exact IHa|rewrite lvl_ng; exact Hl|reflexivity].
     + cbn [map]. change (sep_items ?s (pitems a :: pitems b :: map pitems l)) with (pitems a ++ s ++ sep_items s (pitems b :: map pitems l)).
       rewrite ptoks_app. rewrite <- app_assoc. cbn [app ptoks ptok].
-      eapply (SA_more false _ _ (mkTok tt_CommaToken false (tok_bytes tt_CommaToken))); [exact IHa|rewrite lvl_ng; exact Hl|reflexivity|].
+      eapply (SA_more _ _ (mkTok tt_CommaToken false (tok_bytes tt_CommaToken))); [exact IHa|rewrite lvl_ng; exact Hl|reflexivity|].
       exact IHr.
 Qed.
 
@@ -359,17 +355,17 @@ Proof.
   destruct (parse_sound _ _ _ _ _ H) as [pre [E [Hs Hl]]]; [lia|].
   rewrite app_nil_r in E. subst pre.
   split; [|split; [apply strip_groups_ng|apply print_idempotent_proof]].
-  apply parse_complete; [exact (proj1 (respell_all true) _ _ _ Hs)|lia|rewrite lvl_ng; exact Hl].
+  apply parse_complete; [exact (proj1 respell_all _ _ _ Hs)|lia|rewrite lvl_ng; exact Hl].
 Qed.
 
 (* the same for a grammatical spelling directly *)
 Theorem print_reparses_spelling_proof :
-  forall q inf ts t, spells q inf ts t ->
+  forall inf ts t, spells inf ts t ->
     parse inf prec_OpExpr (ptoks (pitems t)) = Ok (ng t, []).
 Proof.
-  intros q inf ts t Hs. pose proof prec_order as PO.
-  apply parse_complete; [exact (proj1 (respell_all q) _ _ _ Hs)|lia|].
-  rewrite lvl_ng. destruct (spells_lvl _ _ _ _ Hs) as [H _]. exact H.
+  intros inf ts t Hs. pose proof prec_order as PO.
+  apply parse_complete; [exact (proj1 respell_all _ _ _ Hs)|lia|].
+  rewrite lvl_ng. destruct (spells_lvl _ _ _ Hs) as [H _]. exact H.
 Qed.
 
 (* a second round changes nothing any more *)
@@ -395,4 +391,16 @@ Example ex_c05_print :
             print_js t = [43; 32; 43; 97; 32; 45; 32; 40; 49; 41; 46; 98] /\ ng t <> t.
 Proof.
   eexists. split; [vm_compute; reflexivity|]. split; [vm_compute; reflexivity|]. vm_compute. discriminate.
+Qed.
+
+(* ---- the same from the grammar: every derivation of the standard's productions (JsExpr/Grammar.v) ---------------------- *)
+
+From Verif Require JsExpr.Grammar JsExpr.Equiv.
+
+Theorem print_reparses_derivation_proof :
+  forall inf n ts t, JsExpr.Grammar.derives inf n ts t ->
+    parse inf prec_OpExpr (ptoks (pitems t)) = Ok (ng t, []).
+Proof.
+  intros inf n ts t d. destruct (JsExpr.Equiv.derives_spells _ _ _ _ d) as [Hs _].
+  eapply print_reparses_spelling_proof. exact Hs.
 Qed.
